@@ -1,5 +1,5 @@
 from algo_prop import make
-LEAN_EXTRA = ["PyXABProofs.Generated.FormulasC10"]
+LEAN_EXTRA = ["PyXABProofs.Generated.OrderTieC10", "PyXABProofs.Generated.FormulasC10"]
 ALGOS = ['POO']
 budget, explore, search, replay = make("C10", ALGOS, quick_per_algo=24, thorough_per_algo=300, salt=1000)
 RULE = ("the documented pull/receive loop on the real classes: algorithm x partition class (K 2..5) x dimension 1..3 x box shape x "
@@ -15,7 +15,8 @@ TRUSTED = ["harness/algo_cases.py, harness/monitors.py, harness/common.py (instr
 
 
 def regenerate(tier):
-    """translator tie for the numeric formulas: the real methods are traced symbolically and re-proved equal to the
-    published formulas (Spec/Formulas.lean) over every field, on every run"""
-    import translate_formulas
-    return translate_formulas.generate("C10")
+    """translator ties re-proved on every run: numeric formulas traced from the real methods = published formulas over every
+    field (Spec/Formulas.lean), and selection rules run on order-only values for every order type = the model rules for all
+    values of any linear order (Spec/OrderType.lean, Props/OrderTie.lean)"""
+    import ties
+    return ties.regen("C10")
